@@ -14,13 +14,13 @@ import (
 )
 
 var rec = ev.For("C05", "exploration",
-	"case = (generated TSM file layout: 1-14 generations x 1-4 files, sequence 1-6, 5 size classes around the 2 GB limit, 4 first-block counts, tombstones; cold duration) + a generated sequence of PlanLevel/Plan/PlanOptimize/ForceFull/Release/engine-tick calls interleaved with file-store mutations (finished compaction, snapshot, tombstone, seeded hold); non-trivial = a planning call made while >=1 group was held and >=3 generations existed returned >=1 group; distinct by canonical rendering of layout + executed call log. Exhaustive part: every state of <=N single-file generations x sequence 1-5 x 3 size classes x tombstone x held flag, each planner entry point once")
+	"case = (generated TSM file layout: 1-14 generations x 1-4 files, sequence 1-6, 5 size classes around the 2 GB limit, 4 first-block counts, tombstones; cold duration) + a generated sequence of PlanLevel/Plan/PlanOptimize/ForceFull/Release/engine-tick calls interleaved with file-store mutations (finished compaction, snapshot, tombstone, seeded hold); non-trivial = a planning call made while >=1 group was held and >=3 generations existed returned >=1 group; distinct by canonical rendering of layout + executed call log. Concurrent part (TestPropConcurrentPlans): layouts of 1-7 generations x 1-4000 files + 2-4 planning calls started together from different goroutines on one planner (optionally after a held plan / ForceFull), 4 schedules per case; non-trivial = at least two of the calls, run alone, would be handed a common file. Exhaustive part: every state of <=N single-file generations x sequence 1-5 x 3 size classes x tombstone x held flag, each planner entry point once")
 
 func init() {
 	rec.Assume("The fake file store implements tsm1's unexported fileStore interface (Stats sorted by generation/sequence as FileStore.files is; LastModified either the zero time or a far-future time); real TSM files are never read by the planner.")
 	rec.Assume("Caller protocol as in Engine.planCompactionsInner: the generations passed to PlanLevel/Plan/PlanOptimize come from DefaultPlanner.FindGenerations() and are fresh w.r.t. the file store; every handed-out group is released exactly once.")
 	rec.Assume("Held sets are unions of whole generations (what the planner itself hands out); 'seeded holds' put a single arbitrary generation in use through the planner's own single-generation tombstone plans over a temporarily narrowed store.")
-	rec.Assume("Calls are sequential (the engine plans from one goroutine; Release/ForceFull from others are atomic under the planner mutex); lastWrite is either the zero time (cold) or year 2200 (hot), so the oracle does not depend on the wall clock.")
+	rec.Assume("Calls are sequential in TestPropSequences/TestExhaustiveSmall (the engine plans from one goroutine; Release/ForceFull from others are atomic under the planner mutex), overlapping in TestPropConcurrentPlans; lastWrite is either the zero time (cold) or year 2200 (hot), so the oracle does not depend on the wall clock.")
 }
 
 var (
